@@ -248,15 +248,19 @@ Proof.
 Qed.
 
 (* ---------------------------------------------------------------- the sender/controller invariant along ds_step *)
-(* the caller-side conditions under which the Rust itself is defined: no 0-RTT rejection, and a
-   handshake never shrinks the window of a stream whose FIN is out (`debug_assert!(max_data >=
-   self.max_data, "Cannot reduce sndbuf size")` in SendBuf::extend) *)
-Definition op_ok (s : ds) (o : op) : Prop :=
+(* the caller-side conditions: a handshake that is NOT a rejection never shrinks the window of a
+   stream whose FIN is out (`debug_assert!(max_data >= self.max_data, "Cannot reduce sndbuf size")`
+   in SendBuf::extend); a REJECTED handshake (the streams forget their sent state, the controller
+   restarts its charge) needs the repaired revise_max_data (F34; as it was, sent_data > max_data
+   afterwards), and the stream-level invariant Winv ("once the FIN is out every written byte is in
+   the BufMap") survives it for a finished stream only if the new window still covers what was
+   written *)
+Definition op_ok (v : variant) (s : ds) (o : op) : Prop :=
   match o with
   | OHandshake rej =>
-    rej = false
+    (rej = true -> fix34 v = true)
     /\ forall sid sn, alookup (d_outs s) sid = Some sn -> sn_state sn = SDataSent ->
-                      sn_window sn <= revise_send_window (d_rem s) (sid_dir sid)
+                      (if rej then sn_written sn else sn_window sn) <= revise_send_window (d_rem s) (sid_dir sid)
   | _ => True
   end.
 
@@ -280,6 +284,17 @@ Proof.
   - destruct I as (W1 & W2 & W3). specialize (G eq_refl). specialize (W3 St).
     unfold Winv. cbn [sn_col sn_window sn_written sn_state]. rewrite col_extend_len.
     split; [lia|split; [lia|]]. intros _. lia.
+  - exact I.
+Qed.
+
+Lemma revise_Winv_rej sn w :
+  Winv sn -> (sn_state sn = SDataSent -> sn_written sn <= w) -> Winv (snd_revise sn true w).
+Proof.
+  intros I G. unfold snd_revise. destruct (sn_state sn) eqn:St.
+  1,2: apply p_c11_window_update; unfold Winv, snd_forget; cbn [sn_col sn_window sn_written sn_state];
+       rewrite St; unfold lenN; cbn [length]; (split; [lia|split; [lia|discriminate]]).
+  - specialize (G eq_refl). unfold Winv, snd_forget. cbn [sn_col sn_window sn_written sn_state].
+    rewrite col_extend_len. unfold lenN at 1 2 3. cbn [length]. split; [lia|split; [lia|]]. intros _. lia.
   - exact I.
 Qed.
 
@@ -307,26 +322,31 @@ Proof.
   - exact I'.
 Qed.
 
-Lemma Dinv_step v s o : Dinv s -> op_ok s o -> Dinv (fst (ds_step v s o)).
+Lemma Dinv_step v s o : Dinv s -> op_ok v s o -> Dinv (fst (ds_step v s o)).
 Proof.
   intros I OK. unfold ds_step. destruct (d_closed s); [exact I|].
   destruct o; cbn [fst].
   - (* handshake *)
-    destruct OK as [-> G]. unfold ds_handshake. destruct (d_hs s); [exact I|]. cbn [fst].
+    destruct OK as [FX G]. unfold ds_handshake. destruct (d_hs s); [exact I|]. cbn [fst].
     destruct I as [HW Hle]. split; cbn [d_outs d_fs].
     + unfold revise_outs.
       set (g := fun (sid : N) (sn : sender) =>
                   if (sid_idx sid <? opened_streams v (d_l s) (sid_dir sid))
                      && (negb (fix26 v) || role_eqb (sid_role sid) (d_role s))
-                  then snd_revise sn false (revise_send_window (d_rem s) (sid_dir sid)) else sn).
+                  then snd_revise sn rejected (revise_send_window (d_rem s) (sid_dir sid)) else sn).
       rewrite (map_ext _ (fun ks => (fst ks, g (fst ks) (snd ks)))).
       2:{ intros [k x]. unfold g. cbn [fst snd]. destruct (_ && _); reflexivity. }
       intros k sn. rewrite alookup_map_vals. destruct (alookup (d_outs s) k) as [s0|] eqn:L; [|discriminate].
       cbn [option_map]. intro E; inversion E; subst; clear E. unfold g. destruct (_ && _).
-      * apply revise_Winv; [eapply HW; eauto|]. intro St. eapply G; eauto.
+      * destruct rejected.
+        -- apply revise_Winv_rej; [eapply HW; eauto|]. intro St. eapply (G k); eauto.
+        -- apply revise_Winv; [eapply HW; eauto|]. intro St. eapply (G k); eauto.
       * eapply HW; eauto.
-    + unfold sc_revise, sc_increase_limit. destruct (max_data (d_fs s) <? _) eqn:E; cbn [sent_data max_data]; [|exact Hle].
-      apply N.ltb_lt in E. lia.
+    + unfold sc_revise_with, sc_increase_limit. destruct rejected.
+      * rewrite (FX eq_refl). cbn [sent_data max_data flow_limited].
+        destruct (0 <? _); cbn [sent_data max_data]; lia.
+      * destruct (max_data (d_fs s) <? _) eqn:E; cbn [sent_data max_data]; [|exact Hle].
+        apply N.ltb_lt in E. lia.
   - (* open *)
     unfold ds_open. destruct (open_send_window v d (d_mem s) (remote_params s)) as [w|]; [|exact I].
     destruct (poll_alloc_sid (d_role s) (d_l s) d) as [l' res]. destruct res; try exact I.
@@ -435,7 +455,7 @@ Qed.
 Fixpoint all_ok (v : variant) (s : ds) (ops : list op) : Prop :=
   match ops with
   | [] => True
-  | o :: rest => op_ok s o /\ all_ok v (fst (ds_step v s o)) rest
+  | o :: rest => op_ok v s o /\ all_ok v (fst (ds_step v s o)) rest
   end.
 
 Lemma Dinv_init r c loc rem mem : Dinv (ds_init r c loc rem mem).
@@ -878,15 +898,18 @@ Proof.
 Qed.
 
 (* ---------------------------------------------------------------- C11 over op lists: statements *)
-(* sent_data moves only in LOAD *)
+(* sent_data is raised only by LOAD; the only other operation that moves it is a rejected
+   handshake of the repaired code, which restarts it from 0 *)
 Lemma ds_step_sent v s o :
-  (forall cap, o <> OLoad cap) -> sent_data (d_fs (fst (ds_step v s o))) = sent_data (d_fs s).
+  (forall cap, o <> OLoad cap) -> (fix34 v = true -> o <> OHandshake true) ->
+  sent_data (d_fs (fst (ds_step v s o))) = sent_data (d_fs s).
 Proof.
-  intro NL. unfold ds_step. destruct (d_closed s); [reflexivity|].
+  intros NL NR. unfold ds_step. destruct (d_closed s); [reflexivity|].
   destruct o; cbn [fst].
   - unfold ds_handshake. destruct (d_hs s); [reflexivity|]. cbn [fst d_fs].
-    unfold sc_revise, sc_increase_limit. destruct rejected; cbn [max_data sent_data];
-      destruct (_ <? _); reflexivity.
+    unfold sc_revise_with, sc_increase_limit. destruct rejected; cbn [max_data sent_data].
+    + destruct (fix34 v); [exfalso; apply NR; reflexivity|]. destruct (_ <? _); reflexivity.
+    + destruct (_ <? _); reflexivity.
   - unfold ds_open. destruct (open_send_window v d (d_mem s) (remote_params s)); [|reflexivity].
     destruct (poll_alloc_sid (d_role s) (d_l s) d) as [l' res]. destruct res; try reflexivity. destruct d; reflexivity.
   - unfold ds_write, handed_sender. destruct (alookup (d_outs s) sid) as [sn|]; [|reflexivity].
@@ -963,6 +986,18 @@ Proof.
     destruct (inject_finish_frame s1 0 f1) as ((_ & A) & _). rewrite A. reflexivity.
   - unfold ds_lose. destruct (nth_error (d_emitted s) (N.to_nat k)) as [[[[sid st] len] fin]|]; [|reflexivity].
     destruct (alookup (d_outs s) sid); reflexivity.
+Qed.
+
+(* F34 repaired: a rejected handshake restarts the connection-level accounting: the charge is 0 and
+   the limit is exactly the server's initial_max_data *)
+Lemma p_c11_rejected_restarts v s :
+  fix34 v = true -> d_closed s = false -> d_hs s = false ->
+  let s' := fst (ds_step v s (OHandshake true)) in
+  sent_data (d_fs s') = 0 /\ max_data (d_fs s') = p_md (d_rem s).
+Proof.
+  intros FX C H. cbn zeta. unfold ds_step. rewrite C. unfold ds_handshake. rewrite H. cbn [fst d_fs].
+  unfold sc_revise_with, sc_increase_limit. rewrite FX. cbn [sent_data max_data flow_limited].
+  destruct (N.ltb_spec 0 (p_md (d_rem s))); cbn [sent_data max_data]; split; try reflexivity; lia.
 Qed.
 
 (* c11_stream_limit / c11_conn_limit at every state reachable by a whole-DataStreams op list:
